@@ -82,8 +82,32 @@ fn cases_list() -> Vec<Value> {
     for ctor in ["tuple", "array", "enum-ctor", "nested-tuple"] {
         v.push(json!({"kind": "ctor", "form": ctor}));
     }
+    // three elements of one list read and write one cell (R = ref_get(r), A = ref_get(alias of r),
+    // B = a call that increments the cell and returns its new content), in every list form
+    for form in SHARED_FORMS {
+        for a in ["R", "A", "B"] {
+            for b in ["R", "A", "B"] {
+                for c in ["R", "A", "B"] {
+                    v.push(json!({"kind": "shared-reads", "form": form, "elems": [a, b, c]}));
+                }
+            }
+        }
+    }
+    // loops whose condition is false for the first time after some iterations, the `false` produced by
+    // every kind of sub-expression; alone and inside an outer loop that runs it twice
+    for cond in WHILE_CONDS {
+        for nested in [false, true] {
+            v.push(json!({"kind": "while-cond", "cond": cond, "nested": nested}));
+        }
+    }
     v
 }
+
+const SHARED_FORMS: [&str; 9] = ["call-args", "closure-args", "method-args", "tuple", "array", "enum-ctor", "struct-lit", "arithmetic", "nested-call-args"];
+const WHILE_CONDS: [&str; 16] = [
+    "cmp", "and-second-false", "or-both-false", "not", "call", "if-else-false", "match-int-literal-false", "match-int-default-false", "match-bool", "match-enum", "match-string", "match-tuple",
+    "and-with-match", "or-with-match", "if-with-match-inside", "match-with-if-inside",
+];
 
 fn build(case: &Value) -> Option<(Program, String)> {
     let mut n = Names::new();
@@ -339,6 +363,164 @@ fn build(case: &Value) -> Option<(Program, String)> {
             }
             site = format!("struct-lit;written-order={}", if case["perm"] == 0 { "declaration" } else { "permuted" });
         }
+        "shared-reads" => {
+            let form = case["form"].as_str().unwrap();
+            let elems: Vec<&str> = case["elems"].as_array().unwrap().iter().map(|e| e.as_str().unwrap()).collect();
+            let (cell, alias) = (n.fresh("cell"), n.fresh("alias"));
+            let bc = n.fresh("bc");
+            items.push(fn_def(
+                "bump",
+                vec![(bc, Ty::Ref(Box::new(Ty::i32())))],
+                Some(Ty::i32()),
+                block(vec![st(bi("ref_set", vec![v(bc), add(bi("ref_get", vec![v(bc)]), int(1))]))], Some(bi("ref_get", vec![v(bc)]))),
+            ));
+            body.push(let_(cell, bi("ref", vec![int(10)])));
+            body.push(let_(alias, v(cell)));
+            let el = |k: &str| -> E {
+                match k {
+                    "R" => bi("ref_get", vec![v(cell)]),
+                    "A" => bi("ref_get", vec![v(alias)]),
+                    _ => call("bump", vec![v(cell)]),
+                }
+            };
+            let es: Vec<E> = elems.iter().map(|k| el(k)).collect();
+            let (pa, pb, pc) = (n.fresh("pa"), n.fresh("pb"), n.fresh("pc"));
+            let show3 = |a: E, b: E, c: E| block(vec![st(T6::I32.show(a)), st(T6::I32.show(b))], Some(T6::I32.show(c)));
+            match form {
+                "call-args" | "nested-call-args" => {
+                    items.push(fn_def("show3", vec![(pa, Ty::i32()), (pb, Ty::i32()), (pc, Ty::i32())], Some(Ty::Unit), show3(v(pa), v(pb), v(pc))));
+                    if form == "call-args" {
+                        body.push(st(call("show3", es)));
+                    } else {
+                        let q = n.fresh("q");
+                        items.push(fn_def("idi", vec![(q, Ty::i32())], Some(Ty::i32()), v(q)));
+                        body.push(st(call("show3", es.into_iter().map(|e| call("idi", vec![e])).collect())));
+                    }
+                }
+                "closure-args" => {
+                    let f = n.fresh("f");
+                    body.push(let_(f, E::Closure(vec![(pa, Some(Ty::i32())), (pb, Some(Ty::i32())), (pc, Some(Ty::i32()))], Box::new(show3(v(pa), v(pb), v(pc))))));
+                    body.push(st(E::Call(Box::new(v(f)), es)));
+                }
+                "method-args" => {
+                    items.push(Item::Struct(StructDef { name: "Mm".into(), generics: vec![], fields: vec![("k".into(), Ty::i32())], derives: vec![] }));
+                    let sf = n.fresh("self");
+                    items.push(Item::Impl(ImplDef {
+                        generics: vec![],
+                        trait_name: None,
+                        for_ty: Ty::named("Mm"),
+                        methods: vec![FnDef { name: "show3".into(), generics: vec![], bounds: vec![], params: vec![(sf, Ty::named("Mm")), (pa, Ty::i32()), (pb, Ty::i32()), (pc, Ty::i32())], ret: Some(Ty::Unit), body: show3(v(pa), v(pb), v(pc)) }],
+                    }));
+                    let m = n.fresh("m");
+                    body.push(let_(m, E::StructLit("Mm".into(), vec![("k".into(), int(0))], vec![])));
+                    let mut args = vec![v(m)];
+                    args.extend(es);
+                    body.push(st(E::Inherent("Mm".into(), "show3".into(), CallForm::Dot, args, vec![])));
+                }
+                "tuple" => {
+                    let t = n.fresh("t");
+                    body.push(let_(t, E::Tuple(es)));
+                    for i in 0..3 {
+                        body.push(st(T6::I32.show(E::Proj(Box::new(v(t)), i))));
+                    }
+                }
+                "array" => {
+                    let t = n.fresh("t");
+                    body.push(let_(t, E::Array(es)));
+                    for i in 0..3 {
+                        body.push(st(T6::I32.show(bi("array_get", vec![v(t), int(i)]))));
+                    }
+                }
+                "enum-ctor" => {
+                    items.push(Item::Enum(EnumDef { name: "Tri3".into(), generics: vec![], variants: vec![("Nil3".into(), vec![]), ("Three3".into(), vec![Ty::i32(), Ty::i32(), Ty::i32()])], derives: vec![] }));
+                    let t = n.fresh("t");
+                    body.push(let_(t, E::Ctor("Tri3".into(), "Three3".into(), false, es, vec![])));
+                    body.push(st(E::Match(
+                        Box::new(v(t)),
+                        vec![
+                            (Pat::Ctor("Tri3".into(), "Three3".into(), false, vec![Pat::Var(pa), Pat::Var(pb), Pat::Var(pc)]), show3(v(pa), v(pb), v(pc))),
+                            (Pat::Ctor("Tri3".into(), "Nil3".into(), false, vec![]), println(s("nil"))),
+                        ],
+                    )));
+                }
+                "struct-lit" => {
+                    items.push(Item::Struct(StructDef { name: "P3".into(), generics: vec![], fields: vec![("fa".into(), Ty::i32()), ("fb".into(), Ty::i32()), ("fc".into(), Ty::i32())], derives: vec![] }));
+                    let t = n.fresh("t");
+                    let mut it = es.into_iter();
+                    body.push(let_(t, E::StructLit("P3".into(), vec![("fa".into(), it.next().unwrap()), ("fb".into(), it.next().unwrap()), ("fc".into(), it.next().unwrap())], vec![])));
+                    for f in ["fa", "fb", "fc"] {
+                        body.push(st(T6::I32.show(E::Field(Box::new(v(t)), f.into()))));
+                    }
+                }
+                _ => {
+                    // one arithmetic expression: e1 + e2 * 100 + e3 * 10000
+                    let mut it = es.into_iter();
+                    let (e1, e2, e3) = (it.next().unwrap(), it.next().unwrap(), it.next().unwrap());
+                    let r = n.fresh("r");
+                    body.push(let_(r, add(add(e1, bin(BinOp::Mul, e2, int(100))), bin(BinOp::Mul, e3, int(10000)))));
+                    body.push(st(T6::I32.show(v(r))));
+                }
+            }
+            body.push(st(T6::I32.show(bi("ref_get", vec![v(cell)]))));
+            site = format!("shared-reads;form={};elems={}", form, elems.join(""));
+        }
+        "while-cond" => {
+            let cond = case["cond"].as_str().unwrap();
+            let nested = case["nested"].as_bool().unwrap();
+            let c = n.fresh("c");
+            let get = || bi("ref_get", vec![v(c)]);
+            let lt = |k: i128| bin(BinOp::Lt, get(), int(k));
+            // helpers the conditions use
+            let q = n.fresh("q");
+            items.push(fn_def("below3", vec![(q, Ty::i32())], Some(Ty::Bool), bin(BinOp::Lt, v(q), int(3))));
+            items.push(Item::Enum(EnumDef { name: "Sz".into(), generics: vec![], variants: vec![("Small".into(), vec![]), ("Big".into(), vec![Ty::i32()])], derives: vec![] }));
+            let q2 = n.fresh("q");
+            items.push(fn_def("classify", vec![(q2, Ty::i32())], Some(Ty::named("Sz")), if_(bin(BinOp::Lt, v(q2), int(3)), E::Ctor("Sz".into(), "Small".into(), false, vec![], vec![]), E::Ctor("Sz".into(), "Big".into(), false, vec![v(q2)], vec![]))));
+            let q3 = n.fresh("q");
+            items.push(fn_def("word", vec![(q3, Ty::i32())], Some(Ty::Str), if_(bin(BinOp::Lt, v(q3), int(3)), s("go"), s("stop"))));
+            let int_pat = |k: i128| Pat::Int(k, IntKind::I32, false);
+            let match3_false = || E::Match(Box::new(get()), vec![(int_pat(3), E::Bool(false)), (Pat::Wild, E::Bool(true))]);
+            let w = n.fresh("w");
+            let cond_e: E = match cond {
+                "cmp" => lt(3),
+                "and-second-false" => bin(BinOp::And, lt(10), bin(BinOp::Ne, get(), int(3))),
+                "or-both-false" => bin(BinOp::Or, lt(2), bin(BinOp::Eq, get(), int(2))),
+                "not" => E::Unary(UnOp::Not, Box::new(bin(BinOp::Ge, get(), int(3)))),
+                "call" => call("below3", vec![get()]),
+                "if-else-false" => if_(lt(3), E::Bool(true), E::Bool(false)),
+                "match-int-literal-false" => E::Match(Box::new(get()), vec![(int_pat(3), E::Bool(false)), (Pat::Wild, lt(6))]),
+                "match-int-default-false" => E::Match(Box::new(get()), vec![(int_pat(0), E::Bool(true)), (int_pat(1), E::Bool(true)), (int_pat(2), E::Bool(true)), (Pat::Wild, E::Bool(false))]),
+                "match-bool" => E::Match(Box::new(lt(3)), vec![(Pat::Bool(true), E::Bool(true)), (Pat::Bool(false), E::Bool(false))]),
+                "match-enum" => E::Match(Box::new(call("classify", vec![get()])), vec![(Pat::Ctor("Sz".into(), "Small".into(), false, vec![]), E::Bool(true)), (Pat::Ctor("Sz".into(), "Big".into(), false, vec![Pat::Var(w)]), bin(BinOp::Lt, v(w), int(0)))]),
+                "match-string" => E::Match(Box::new(call("word", vec![get()])), vec![(Pat::Str("go".into()), E::Bool(true)), (Pat::Wild, E::Bool(false))]),
+                "match-tuple" => E::Match(Box::new(E::Tuple(vec![lt(3), lt(10)])), vec![(Pat::Tuple(vec![Pat::Bool(true), Pat::Bool(true)]), E::Bool(true)), (Pat::Wild, E::Bool(false))]),
+                "and-with-match" => bin(BinOp::And, lt(10), match3_false()),
+                "or-with-match" => bin(BinOp::Or, bin(BinOp::Lt, get(), int(0)), match3_false()),
+                "if-with-match-inside" => if_(lt(10), match3_false(), E::Bool(false)),
+                _ => E::Match(Box::new(get()), vec![(int_pat(0), E::Bool(true)), (Pat::Wild, if_(lt(3), E::Bool(true), E::Bool(false)))]),
+            };
+            let inner = E::While(
+                Box::new(cond_e),
+                Box::new(block(vec![st(T6::I32.show(get())), st(bi("ref_set", vec![v(c), add(get(), int(1))]))], Some(println(s("body"))))),
+            );
+            if nested {
+                let d = n.fresh("d");
+                body.push(let_(d, bi("ref", vec![int(0)])));
+                body.push(let_(c, bi("ref", vec![int(0)])));
+                body.push(st(E::While(
+                    Box::new(bin(BinOp::Lt, bi("ref_get", vec![v(d)]), int(2))),
+                    Box::new(block(
+                        vec![st(bi("ref_set", vec![v(c), int(0)])), st(inner), st(T6::I32.show(get())), st(bi("ref_set", vec![v(d), add(bi("ref_get", vec![v(d)]), int(1))]))],
+                        Some(println(s("outer"))),
+                    )),
+                )));
+            } else {
+                body.push(let_(c, bi("ref", vec![int(0)])));
+                body.push(st(inner));
+            }
+            body.push(st(T6::I32.show(get())));
+            site = format!("while-cond={};nested={}", cond, nested);
+        }
         "while" => {
             let iters = case["iters"].as_u64().unwrap() as i128;
             let c = n.fresh("c");
@@ -411,7 +593,7 @@ impl Family for EvalOrder {
         &["C09", "C01", "C02", "C04"]
     }
     fn rule(&self) -> &'static str {
-        "effect probes in both operand positions of all 12 binary operators at int32/int8/string/bool; full truth tables (8 assignments) of 10 &&/||/! formulas in 5 positions (let, if condition, while condition, argument, return); calls with 0-3 probed arguments through 7 callee forms (fn, closure, effectful callee expression yielding a closure / yielding a plain function, method dot/path form with probed receiver, generic fn); struct literals in all 6 written field orders; while with 0-3 iterations and a probed condition; 9 call forms with an effect (fn, closure, method dot/path, trait path, through a bound, dyn, generic, builtin) in 7 positions whose value is discarded (statement, tail of a while body, tail of an if inside a while body, branch of an if / match statement, let _, tail of a block inside an if statement); tuple/array/constructor elements; guards: the same 10 formulas x 8 assignments with a call-free trapping operand (100 / z > 3, z in {0, 1}) in each leaf position, the other leaves plain variables or probes, as a function result or an if condition. non-trivial = programs printing >= 2 probes; distinct = distinct source text"
+        "effect probes in both operand positions of all 12 binary operators at int32/int8/string/bool; full truth tables (8 assignments) of 10 &&/||/! formulas in 5 positions (let, if condition, while condition, argument, return); calls with 0-3 probed arguments through 7 callee forms (fn, closure, effectful callee expression yielding a closure / yielding a plain function, method dot/path form with probed receiver, generic fn); struct literals in all 6 written field orders; while with 0-3 iterations and a probed condition; 9 call forms with an effect (fn, closure, method dot/path, trait path, through a bound, dyn, generic, builtin) in 7 positions whose value is discarded (statement, tail of a while body, tail of an if inside a while body, branch of an if / match statement, let _, tail of a block inside an if statement); tuple/array/constructor elements; three elements of one list that read and increment one Ref cell (directly, through an alias, through a call) in all 27 combinations x 9 list forms (call / closure / method arguments, tuple, array, constructor, struct literal, one arithmetic expression, calls as arguments); 16 kinds of while condition whose `false` comes from a comparison / && / || / ! / call / if / match on int, bool, enum, string, tuple / match inside && , || and if / if inside match, for the first time after three iterations, alone and inside an outer loop that runs it twice; guards: the same 10 formulas x 8 assignments with a call-free trapping operand (100 / z > 3, z in {0, 1}) in each leaf position, the other leaves plain variables or probes, as a function result or an if condition. non-trivial = programs printing >= 2 probes; distinct = distinct source text"
     }
     fn cases(&self, _tier: Tier) -> Box<dyn Iterator<Item = Value> + '_> {
         Box::new(cases_list().into_iter())
